@@ -270,6 +270,33 @@ func c20(r *Report) {
 			}
 		}
 		r.Decide("flow", "(*M/static.Modifier).ModifyResponse: the request path is rooted before it is cleaned and joined", okAbs, "Clean(\"/\" + URL.Path)", "Clean is applied to a possibly relative path: leading \"..\" elements survive and the joined path leaves the root", opens[0].Pos())
+		// nothing rewrites the path between Clean and Join: whatever part of a
+		// joined path depends on the request is the result of Clean itself
+		// (unescaping or trimming afterwards can bring ".." back)
+		badLeaf := ""
+		for v := range sl {
+			c, ok := v.(*ssa.Call)
+			if !ok || (calleeName(c) != "path/filepath.Join" && calleeName(c) != "path.Join") {
+				continue
+			}
+			sliceLitContains(w, c.Call.Args[0], func(e ssa.Value) bool {
+				for _, leaf := range resolveAll(e) {
+					fromReq := anyIn(w.backSlice(leaf, flowOpt{BinOps: true, Through: map[string]bool{"net/url.PathUnescape": true, "net/url.QueryUnescape": true, "strings.TrimPrefix": true, "strings.TrimSuffix": true, "strings.TrimLeft": true, "strings.Trim": true, "strings.Replace": true, "strings.ReplaceAll": true, "strings.ToLower": true, "path/filepath.FromSlash": true, "path/filepath.ToSlash": true, "path/filepath.Clean": true, "path.Clean": true}, CallArg: true}), func(x ssa.Value) bool {
+						fa, z := x.(*ssa.FieldAddr)
+						return z && (fieldObj(fa).Name() == "Path" || fieldObj(fa).Name() == "RawPath" || fieldObj(fa).Name() == "RequestURI")
+					})
+					if !fromReq {
+						continue
+					}
+					if lc, isC := leaf.(*ssa.Call); isC && (calleeName(lc) == "path/filepath.Clean" || calleeName(lc) == "path.Clean") {
+						continue
+					}
+					badLeaf = describeVal(leaf)
+				}
+				return false
+			})
+		}
+		r.Decide("flow", "(*M/static.Modifier).ModifyResponse: the request-derived part of the joined path is the cleaned path itself", badLeaf == "", "every request-dependent element handed to Join is the direct result of Clean", "the path is transformed after it was cleaned ("+badLeaf+"): dot segments can reappear (e.g. from %252e%252e) and Join then resolves outside the root", opens[0].Pos())
 		// explicit mappings are joined to the root as well (checked by okRoot) and keyed by the cleaned path
 		okNF := false
 		for _, in := range instrs(f) {
